@@ -1533,6 +1533,18 @@ func (w *World) Snapshot() []FileState {
 	return out
 }
 
+// RealPath resolves p like the kernel would (symbolic links in every component,
+// and in the last one too if followLast) without logging, and returns the
+// resolved absolute path together with the node ("" and nil if it does not
+// resolve).
+func (w *World) RealPath(p string, followLast bool) (string, *Inode) {
+	r, e := w.resolve(p, followLast)
+	if e != 0 || r.node == nil {
+		return "", nil
+	}
+	return r.real, r.node
+}
+
 // Peek returns the node at an absolute path without logging (no symlink
 // following on the last component).
 func (w *World) Peek(p string) *Inode {
